@@ -65,6 +65,10 @@ func RunControls(prop string) []ev.Control {
 				c.Outcome = "silent"
 			case 1:
 				c.Outcome = "fired"
+				if strings.Contains(string(b), "does not type-check") {
+					// a control that does not compile proves nothing about the rule
+					c.Outcome = "does-not-compile"
+				}
 				for _, l := range strings.Split(string(b), "\n") {
 					if strings.Contains(l, "key=") {
 						c.Note = strings.TrimSpace(l)
